@@ -30,6 +30,23 @@ def _filter_identifiers(filter_args):
     return filter_args.undeclared_identifiers.difference(flags)
 
 
+def _default_identifiers(function_decl, exception_kwargs):
+    """the names read by the default values of a signature, those of its
+    keyword-only parameters included."""
+
+    res = set()
+    for c in function_decl.defaults + [
+        d for d in function_decl.kwdefaults if d is not None
+    ]:
+        # as for <%page args>, the variables of a comprehension in a
+        # default are its own
+        code = ast.PythonCode(c, **exception_kwargs)
+        res = res.union(
+            code.undeclared_identifiers.difference(code.declared_identifiers)
+        )
+    return res
+
+
 class Node:
     """base class for a Node in the parse tree."""
 
@@ -507,19 +524,17 @@ class DefTag(Tag):
         return self.function_decl.allargnames
 
     def undeclared_identifiers(self):
-        res = []
-        for c in self.function_decl.defaults:
-            # as for <%page args>, the variables of a comprehension in a
-            # default are its own
-            code = ast.PythonCode(c, **self.exception_kwargs)
-            res += list(
-                code.undeclared_identifiers.difference(
-                    code.declared_identifiers
-                )
+        res = _default_identifiers(self.function_decl, self.exception_kwargs)
+        if self.decorator:
+            res = res.union(
+                ast.PythonCode(
+                    self.decorator, **self.exception_kwargs
+                ).undeclared_identifiers
             )
-        return (
-            set(res)
-            .union(_filter_identifiers(self.filter_args))
+        # the defaults and the decorator are evaluated where the def is
+        # written, the other expressions inside it
+        return res.union(
+            _filter_identifiers(self.filter_args)
             .union(self.expression_undeclared_identifiers)
             .difference(self.function_decl.allargnames)
         )
@@ -603,7 +618,7 @@ class CallTag(Tag):
     def undeclared_identifiers(self):
         return self.code.undeclared_identifiers.difference(
             self.code.declared_identifiers
-        )
+        ).union(_default_identifiers(self.body_decl, self.exception_kwargs))
 
 
 class CallNamespaceTag(Tag):
@@ -638,7 +653,7 @@ class CallNamespaceTag(Tag):
     def undeclared_identifiers(self):
         return self.code.undeclared_identifiers.difference(
             self.code.declared_identifiers
-        )
+        ).union(_default_identifiers(self.body_decl, self.exception_kwargs))
 
 
 class InheritTag(Tag):
